@@ -221,14 +221,22 @@ def any_truth(ctx: Ctx, v: SymAny):
     )
 
 
-def any_split(ctx: Ctx, v: SymAny, label="anytag"):
-    """fork on the dynamic type of an application supplied value; returns (tag, concrete-typed
-    value)"""
-    feas = [t for t in ANY_TAGS if ctx.feasible(any_tag_is(v, t))]
-    if not feas:
+def any_split(ctx: Ctx, v: SymAny, label="anytag", interesting=None):
+    """fork on the dynamic type of an application supplied value; returns (tag, typed value).
+    Tags outside `interesting` are lumped into one alternative with tag 'rest' (callers treat them
+    uniformly, e.g. raise TypeError)."""
+    tags = list(ANY_TAGS) if interesting is None else [t for t in ANY_TAGS if t in interesting]
+    rest = [t for t in ANY_TAGS if t not in tags]
+    alts = [t for t in tags if ctx.feasible(any_tag_is(v, t))]
+    if rest and ctx.feasible(z3.Or(*[any_tag_is(v, t) for t in rest])):
+        alts.append("rest")
+    if not alts:
         raise PathEnd("no feasible tag")
-    k = ctx.choose(len(feas), f"{label}:{v.name}", feas)
-    tag = feas[k]
+    k = ctx.choose(len(alts), f"{label}:{v.name}", alts)
+    tag = alts[k]
+    if tag == "rest":
+        ctx.assume(z3.Or(*[any_tag_is(v, t) for t in rest]))
+        return "rest", v
     ctx.assume(any_tag_is(v, tag))
     if tag == "none":
         return tag, None
@@ -285,6 +293,11 @@ def eq(ctx: Ctx, a, b):
     if ka and kb:
         if ka != kb:
             return False
+        # variable == literal: a proxy the string-free solver can decide
+        for x, y in ((a, b), (b, a)):
+            if isinstance(x, SymStr) and not is_sym(y) and z3.is_const(x.e) and x.e.decl().kind() == z3.Z3_OP_UNINTERPRETED:
+                lit = y if isinstance(y, str) else bytes(y).decode("latin-1")
+                return ctx.str_eq_lit(x.e, lit)
         return str_to_z3(a) == str_to_z3(b)
     if isinstance(a, SymEnum) or isinstance(b, SymEnum):
         if isinstance(b, SymEnum) and not isinstance(a, SymEnum):
@@ -587,7 +600,18 @@ def to_seq(ctx: Ctx, v, like: SymSeq = None) -> SymSeq:
         for it in items:
             if not (isinstance(it, tuple) and len(it) == 2):
                 raise Unsupported(f"non pair in header list: {it!r}")
-            units.append(z3.Unit(Pair.mk(str_to_z3(it[0]), str_to_z3(it[1]))))
+
+            def comp(x):
+                # an application supplied value stored in a header list: its bytes view (content
+                # is unconstrained when it is not actually bytes)
+                if isinstance(x, SymAny):
+                    p = any_proj(ctx, x, "bytes")
+                    if isinstance(p, SymBytes):
+                        raise Unsupported("payload-kind Any in header list")
+                    return p.e
+                return str_to_z3(x)
+
+            units.append(z3.Unit(Pair.mk(comp(it[0]), comp(it[1]))))
         return SymSeq(units[0] if len(units) == 1 else z3.Concat(*units), "pair")
     raise Unsupported(f"to_seq elem {elem}")
 
